@@ -67,14 +67,29 @@ func usable(a action, n int) bool {
 
 var errScripted = errors.New("scripted transient failure")
 
+// tail says what the opener does once the script is used up.
+type tail uint8
+
+const (
+	tRecover         tail = iota // every OpenAt and Read works
+	tOpenFail                    // every OpenAt fails (and every Read on a reader that is still open)
+	tReadFail                    // every OpenAt works, every Read fails at once with 0 bytes (a stream that always breaks at the same byte)
+	tPartialFail                 // every OpenAt works, every Read returns (1 byte, error): never any progress
+	tDeliverThenFail             // every OpenAt works, the first Read of each reader delivers 1 byte, its next Read fails: slow progress
+	nTails
+)
+
+var tailName = [...]string{"recover", "open-fails", "read-fails-0", "read-returns-1-byte-and-error", "deliver-1-then-fail"}
+
 type giveUp struct{}
 
 // scripted is the opener: it serves stream[offset:] and consumes one script action
-// per Read (or per OpenAt, for O). After the script: with recovery everything works,
+// per Read (or per OpenAt, for O). After the script it behaves as its tail says (the
+// comment below is about the two basic tails): with recovery everything works,
 // without it every OpenAt and Read fails.
 type scripted struct {
 	script      []action
-	recovery    bool
+	tail        tail
 	eofWithData bool
 	limit       int // failures after which the harness stops the run (never-gives-up guard)
 
@@ -105,7 +120,7 @@ func (s *scripted) OpenAt(ctx context.Context, off int64) (io.ReadCloser, error)
 			s.pos++
 			return nil, s.fail()
 		}
-	} else if !s.recovery {
+	} else if s.tail == tOpenFail {
 		return nil, s.fail()
 	}
 	if off < 0 {
@@ -120,9 +135,10 @@ func (s *scripted) OpenAt(ctx context.Context, off int64) (io.ReadCloser, error)
 func (s *scripted) String() string { return "scripted" }
 
 type sreader struct {
-	s      *scripted
-	off    int
-	closed bool
+	s         *scripted
+	off       int
+	closed    bool
+	tailReads int
 }
 
 func (r *sreader) Close() error {
@@ -160,8 +176,19 @@ func (r *sreader) Read(p []byte) (int, error) {
 			return r.deliver(p, int(a-aP1)+1), s.fail()
 		}
 		k = int(a-aD1) + 1
-	} else if !s.recovery {
-		return 0, s.fail()
+	} else {
+		switch s.tail {
+		case tOpenFail, tReadFail:
+			return 0, s.fail()
+		case tPartialFail:
+			return r.deliver(p, 1), s.fail()
+		case tDeliverThenFail:
+			r.tailReads++
+			if r.tailReads > 1 {
+				return 0, s.fail()
+			}
+			k = 1
+		}
 	}
 	if r.off >= len(stream) {
 		s.consec = 0
@@ -188,25 +215,29 @@ type retryStats struct {
 	violRuns                    int64
 	outcomes                    *ev.Counter
 	configs                     []string
+	extraTailMaxLen             int
+	byTail                      [nTails]int64
 }
 
 type retryExplorer struct {
-	r     *ev.Run
-	st    *retryStats
-	B     int
-	stop  atomic.Bool
-	mu    sync.Mutex
-	cands map[string]*retryCand
+	r  *ev.Run
+	st *retryStats
+	B  int
+	// the tails beyond recover/open-fails are run for scripts up to this length
+	extraTailMaxLen int
+	stop            atomic.Bool
+	mu              sync.Mutex
+	cands           map[string]*retryCand
 }
 
 // retryCand is the simplest violating run seen so far for one signature.
 type retryCand struct {
-	rank     string
-	script   []action
-	cfg      retryCfg
-	recovery bool
-	class    string
-	count    int
+	rank   string
+	script []action
+	cfg    retryCfg
+	tail   tail
+	class  string
+	count  int
 }
 
 // finish reports the shortest violating script per signature after two re-executions.
@@ -221,14 +252,14 @@ func (ex *retryExplorer) finish() {
 		var ob retryObs
 		var msg string
 		for i := 0; i < 2; i++ {
-			ob = ex.runOne(c.script, c.cfg, c.recovery)
+			ob = ex.runOne(c.script, c.cfg, c.tail)
 			var c2 string
-			if c2, msg = ex.judge(c.script, c.cfg, c.recovery, ob); c2 != c.class {
+			if c2, msg = ex.judge(c.script, c.cfg, c.tail, ob); c2 != c.class {
 				ev.Fatal("c15: retryReader violation %s not reproduced on re-execution of [%s]", sig, scriptString(c.script))
 			}
 		}
-		ex.r.Violate(sig, fmt.Sprintf("retryReader: %s; script [%s] recovery=%v eofWithData=%v buf=%d: %s", c.class, scriptString(c.script), c.recovery, c.cfg.eofWithData, c.cfg.bufSize, msg),
-			map[string]interface{}{"script": scriptString(c.script), "recovery": c.recovery, "eof_with_last_bytes": c.cfg.eofWithData, "read_buffer": c.cfg.bufSize,
+		ex.r.Violate(sig, fmt.Sprintf("retryReader: %s; script [%s] then %s; eofWithData=%v buf=%d: %s", c.class, scriptString(c.script), tailName[c.tail], c.cfg.eofWithData, c.cfg.bufSize, msg),
+			map[string]interface{}{"script": scriptString(c.script), "after_the_script": tailName[c.tail], "eof_with_last_bytes": c.cfg.eofWithData, "read_buffer": c.cfg.bufSize,
 				"delivered": string(ob.out), "stream": string(stream), "final_error": fmt.Sprint(ob.final), "open_offsets": ob.s.opens,
 				"failures_met": ob.s.fails, "max_consecutive_failures": ob.s.maxConsec, "budget": ex.B, "msg": msg,
 				"violating_runs_with_this_signature": c.count})
@@ -244,8 +275,8 @@ type retryObs struct {
 	s        *scripted
 }
 
-func (ex *retryExplorer) runOne(script []action, cfg retryCfg, recovery bool) (ob retryObs) {
-	s := &scripted{script: script, recovery: recovery, eofWithData: cfg.eofWithData, limit: len(script) + 10*(ex.B+2)}
+func (ex *retryExplorer) runOne(script []action, cfg retryCfg, tl tail) (ob retryObs) {
+	s := &scripted{script: script, tail: tl, eofWithData: cfg.eofWithData, limit: len(script) + 10*(ex.B+2)}
 	ob.s = s
 	defer func() {
 		if e := recover(); e != nil {
@@ -276,7 +307,7 @@ func (ex *retryExplorer) runOne(script []action, cfg retryCfg, recovery bool) (o
 }
 
 // judge applies the oracle: exactly the stream, or an error once the budget is used up.
-func (ex *retryExplorer) judge(script []action, cfg retryCfg, recovery bool, ob retryObs) (class, msg string) {
+func (ex *retryExplorer) judge(script []action, cfg retryCfg, tl tail, ob retryObs) (class, msg string) {
 	switch {
 	case ob.gaveUp:
 		return "no-error-although-budget-exhausted", fmt.Sprintf("reader still retrying after %d failures (%d consecutive), budget %d", ob.s.fails, ob.s.maxConsec, ex.B)
@@ -342,9 +373,13 @@ func (ex *retryExplorer) explore(script []action, cfg retryCfg, maxLen int) {
 	}
 	atomic.AddInt64(&ex.st.scripts, 1)
 	consumedAll := true
-	for _, recovery := range []bool{true, false} {
-		ob := ex.runOne(script, cfg, recovery)
+	for tl := tail(0); tl < nTails; tl++ {
+		if tl > tOpenFail && len(script) > ex.extraTailMaxLen {
+			continue
+		}
+		ob := ex.runOne(script, cfg, tl)
 		atomic.AddInt64(&ex.st.runs, 1)
+		atomic.AddInt64(&ex.st.byTail[tl], 1)
 		nfail := 0
 		for _, a := range script[:ob.consumed] {
 			if isFailure(a) {
@@ -357,7 +392,7 @@ func (ex *retryExplorer) explore(script []action, cfg retryCfg, maxLen int) {
 		if ob.consumed < len(script) {
 			consumedAll = false
 		}
-		class, _ := ex.judge(script, cfg, recovery, ob)
+		class, _ := ex.judge(script, cfg, tl, ob)
 		oc := "error"
 		if ob.final == io.EOF {
 			oc = "eof"
@@ -374,7 +409,10 @@ func (ex *retryExplorer) explore(script []action, cfg retryCfg, maxLen int) {
 		if class != "" {
 			atomic.AddInt64(&ex.st.violRuns, 1)
 			sig := fmt.Sprintf("C15/retryReader/%s/first-failure=%s", class, firstFailure(script[:ob.consumed]))
-			rank := fmt.Sprintf("%03d|%s|%v|%v|%02d", len(script), scriptString(script), recovery, cfg.eofWithData, cfg.bufSize)
+			if class == "no-error-although-budget-exhausted" {
+				sig = fmt.Sprintf("C15/retryReader/%s/after-script=%s", class, tailName[tl])
+			}
+			rank := fmt.Sprintf("%03d|%s|%d|%v|%02d", len(script), scriptString(script), tl, cfg.eofWithData, cfg.bufSize)
 			ex.mu.Lock()
 			c := ex.cands[sig]
 			if c == nil {
@@ -383,7 +421,7 @@ func (ex *retryExplorer) explore(script []action, cfg retryCfg, maxLen int) {
 			}
 			c.count++
 			if rank < c.rank {
-				c.rank, c.script, c.cfg, c.recovery, c.class = rank, append([]action(nil), script...), cfg, recovery, class
+				c.rank, c.script, c.cfg, c.tail, c.class = rank, append([]action(nil), script...), cfg, tl, class
 			}
 			ex.mu.Unlock()
 		}
@@ -432,7 +470,11 @@ func runRetry(r *ev.Run, workers int) *retryStats {
 	for _, c := range cfgs {
 		st.configs = append(st.configs, fmt.Sprintf("(%v,%d)", c.eofWithData, c.bufSize))
 	}
-	ex := &retryExplorer{r: r, st: st, B: B, cands: map[string]*retryCand{}}
+	ex := &retryExplorer{r: r, st: st, B: B, cands: map[string]*retryCand{}, extraTailMaxLen: B + 1}
+	if r.Thorough() {
+		ex.extraTailMaxLen = B + 2
+	}
+	st.extraTailMaxLen = ex.extraTailMaxLen
 	// jobs: (config, first two actions); shorter scripts are run first, sequentially
 	type job struct {
 		cfg    retryCfg
@@ -456,7 +498,7 @@ func runRetry(r *ev.Run, workers int) *retryStats {
 	}
 	ev.Parallel(len(jobs), workers, func(i int) { ex.explore(jobs[i].script, jobs[i].cfg, st.maxLen) })
 	ex.finish()
-	r.Sample(map[string]interface{}{"retryReader_script": "D2 P1 O F D3", "meaning": "Read delivers 2 bytes; next Read returns (1 byte, error); the reopen fails; after the next reopen the Read fails; then 3 bytes; after the script: recovery (everything works) or no recovery (everything fails)",
+	r.Sample(map[string]interface{}{"retryReader_script": "D2 P1 O F D3", "meaning": "Read delivers 2 bytes; next Read returns (1 byte, error); the reopen fails; after the next reopen the Read fails; then 3 bytes; after the script one of the tails: " + strings.Join(tailName[:], " | ") + "",
 		"budget_B": B, "oracle": "EOF => delivered == \"abcdef\"; error => delivered is a prefix of the stream and the reader met at least B failures"})
 	return st
 }
